@@ -36,6 +36,7 @@ def check(ctx):
     ctx.rule("R5", "specs resolve binaries only through locate_executable", floor=2)
     ctx.rule("R7", "the validation stamp of a cached directory listing is read before the directory is listed", floor=1)
     ctx.rule("R8", "between the user's word and the file that is inspected and executed, an explicit path is never normalised lexically (abspath/normpath collapse `dir/..` without asking the file system: with a symlinked dir that is another file)", floor=2)
+    ctx.rule("R10", "an in-place edit of $PATH reaches the child's PATH string: the cached detyped environment is dropped whenever a mutable container - the path list included, and also the one built from the default while $PATH is unset - is handed out by the environment (lookup reads the live list; Popen gets the cached string, and the child's execvp would pick another file)", floor=1)
     ctx.rule("R9", "a command is an executable *regular file* in every view: wherever the executable test is asked to skip its own regular-file check (check_file_exist=False), the same path is already known to be a file at that point (`not is_file(p) or ...`), and every name a directory listing yields has passed the executable test (a symlink to a directory has the x bit too)", floor=4)
     ctx.rule("R6", "no memoisation of file-system facts on the lookup path beyond the documented caches (mtime-keyed directory listings, opt-in read-once directories)", floor=2)
 
@@ -371,6 +372,9 @@ def check(ctx):
     ctx.ob("R8", f"{SP}+{EX}", f"no lexical path normalisation in the {n8} functions of the launch path", True, key="launch-path|scanned")
     ctx.ob("R8", f"{SP}:get_script_subproc_command", "script detection hands the interpreter the path it was given", True, key="launch-path|script-detection") if ctx.repo.module(SP).has("get_script_subproc_command") else None
     _regular_file_everywhere(ctx)
+    from .c10 import getitem_invalidation
+
+    getitem_invalidation(ctx, "R10")
 
 
 def _regular_file_everywhere(ctx):
